@@ -274,6 +274,11 @@ def task_histories(ctx, n, steps=30):
 
 
 def tasks(tier):
+    from .. import depth
+    return _tasks(tier) + [("little-stack", depth.task, dict(prop=PROPERTY))]
+
+
+def _tasks(tier):
     if tier == "quick":
         return [("hist-%d" % k, task_histories, dict(n=250)) for k in range(8)]
     # coverage-guided tier (pbt/fuzz.py): libFuzzer drives the strategies and oracles of these tasks
@@ -282,4 +287,7 @@ def tasks(tier):
 
 
 def replay(ctx, case):
+    if isinstance(case, dict) and case.get("kind") == "little-stack":
+        from .. import depth
+        return depth.check(ctx, case)
     check_history(ctx, case["ops"])
